@@ -129,7 +129,7 @@ def _check_view(h, c, expected, tag):
     h.check(f"{tag}.iter_sorted_desc", ordered)
 
 
-def _coll_ops(n_ops, ops=("add", "remove", "concat", "iterate")):
+def _coll_ops(n_ops, ops=("add", "remove", "concat", "iterate"), NAMES=NAMES, KEYS=("feed", "a", "b")):
     def ob(h):
         c = StreamCollection()
         ghost = []
@@ -139,6 +139,11 @@ def _coll_ops(n_ops, ops=("add", "remove", "concat", "iterate")):
             if op == "add":
                 s = _mk_stream(h, made, h.choice(f"name{step}", NAMES)); made += 1
                 c.add(s)
+                ghost.append(s)
+            elif op == "add_key":
+                # explicit key that differs from the member's own name (the mapping key and .name are independent)
+                s = _mk_stream(h, made, h.choice(f"name{step}", NAMES)); made += 1
+                c.add(s, key=h.choice(f"key{step}", KEYS))
                 ghost.append(s)
             elif op == "overwrite":
                 # explicit overwrite of an existing key: the member under that key is replaced, nothing else changes
@@ -171,6 +176,18 @@ def _coll_ops(n_ops, ops=("add", "remove", "concat", "iterate")):
                 ghost.append(s)
             elif op == "iterate":
                 list(c)
+            elif op == "remove_after_iteration":
+                # the removal meets a CLEAN sorted cache (a view was taken since the last mutation)
+                keys = list(c._streams.keys())
+                if not keys:
+                    continue
+                list(c)
+                k = h.choice(f"rm{step}", keys) if len(keys) > 1 else keys[0]
+                victim = c._streams[k]
+                c.remove(k)
+                ghost = [g for g in ghost if g is not victim]
+                # the view right after the removal, before anything else touches the collection
+                _check_view(h, c, ghost, f"after{step}.view")
             elif op == "set_key":
                 c.set_sort_key("t_supply", reverse=True)
             h.check(f"after{step}.len", len(c) == len(ghost))
@@ -269,6 +286,9 @@ def obligations():
                           "set_sort_key, remove}; key alphabet {a, b, a_1, a_2}", functions=fs_coll, max_paths=60000))
     obs.append(Obligation("C19.coll.overwrite.b", _coll_ops(4, ("add", "iterate", "overwrite")), kind="bounded", bound="every sequence of 4 operations from {add, iterate, "
                           "add(prevent_overwrite=False) onto an existing key}; key alphabet {a, b, a_1, a_2}", functions=fs_coll, max_paths=200000))
+    obs.append(Obligation("C19.coll.remove.b", _coll_ops(3, ("add", "add_key", "remove_after_iteration"), NAMES=("a", "a_1"), KEYS=("feed", "a")), kind="bounded", bound="every sequence of 3 operations from {add, "
+                          "add(key=k) with k from {feed, a}, iterate-then-remove}; member names from {a, a_1} (keys that differ from the member's name: clash renames and explicit keys)",
+                          functions=fs_coll, max_paths=200000, doc="a removal that meets a clean sorted cache removes exactly the member stored under that key from every view"))
     obs.append(Obligation("C19.coll.ops4.b", _coll_ops(4), kind="bounded", tier="thorough", bound="as C19.coll.ops.b with 4 operations", functions=fs_coll, max_paths=2000000))
     obs.append(Obligation("C19.coll.replace.b", ob_replace, kind="bounded", bound="1..3 members, names from {a, b, a_1}", functions=[StreamCollection.replace]))
     obs.append(Obligation("C19.coll.cache.b", ob_stale_cache, kind="bounded", bound="2 members, one key reassigned after an iteration",
